@@ -7,7 +7,7 @@ From Coq Require Import List ZArith NArith Bool String.
 Import ListNotations.
 From DD Require Import Base.PyStr Base.Value Hash.HashModel Hash.Equiv
   Hash.HashProofsBase Hash.HashProofsC06 Hash.HashProofsC07 Hash.HashProofsMemo Hash.HashProofsK2 Hash.HexHash
-  Hash.HashAlike Hash.HashProofsAlike.
+  Hash.HashAlike Hash.HashProofsAlike Hash.HashXModel.
 
 (* Full strength (all plain option records in the property's three modes, all
    values) is false of the faithful model: K1 and K4 below. *)
@@ -282,3 +282,26 @@ Theorem C07_alike_witnesses :
    norep ordered_mode v = true /\ tag_safe v = true /\ wf v = true /\ small_sets v = false /\ eqvi ordered_mode v v).
 Proof. split; [exact k4_alike|split; [exact k3_not_alike|exact norep_example]]. Qed.
 Print Assumptions C07_alike_witnesses.
+
+(* The extended model (Hash/HashXModel.v).  On embedded base values it IS [hash_pure] (C06_extended_model_conservative),
+   so the theorems above are theorems about it there.  Beyond: K1 reaches every new leaf type (a str that spells the
+   serialisation of a date / Decimal / Path / namedtuple shares its hash, for every hasher), and the hypothesis H_tok
+   is necessary: with apply_hash=False - "the hasher" is the identity, whose outputs contain the separators - a list
+   of two strs and a list of one str collide (documented by deepdiff as a testing-only mode). *)
+Theorem C07_extended_refuted : forall H : pystr -> pystr,
+  (xdeephash H no_skip default_xopts (XAtom (XA (AStr (s2p "datetime:2020-01-02")))) =
+   xdeephash H no_skip default_xopts (XAtom (XL (LDate 2020 1 2))) /\
+   xdeephash H no_skip default_xopts (XAtom (XA (AStr (s2p "Decimal:1.5")))) =
+   xdeephash H no_skip default_xopts (XAtom (XL (LDecimal false 15 (-1)))) /\
+   xdeephash H no_skip default_xopts (XAtom (XA (AStr (s2p "PosixPath:/a/b")))) =
+   xdeephash H no_skip default_xopts (XAtom (XL (LPath (s2p "/a/b")))) /\
+   xdeephash H no_skip default_xopts (XAtom (XA (AStr (s2p "ntPt:{}")))) =
+   xdeephash H no_skip default_xopts (XObj ONamed (s2p "Pt") [])) /\
+  (let raw := mk_xopts default_opts false false None [] in
+   xdeephash H no_skip raw (XList [XAtom (XA (AStr (s2p "a,str:b")))]) =
+   xdeephash H no_skip raw (XList [XAtom (XA (AStr (s2p "a"))); XAtom (XA (AStr (s2p "b")))]) /\
+   xdeephash H no_skip raw (XList [XAtom (XA (AStr (s2p "a,str:b")))]) <> None).
+Proof.
+  intro H. split; [repeat split; reflexivity|]. cbv zeta. split; [reflexivity|]. vm_compute. discriminate.
+Qed.
+Print Assumptions C07_extended_refuted.
